@@ -134,6 +134,9 @@ def respell(rnd, text):
             if ch.isalpha() and r < 0.15:
                 nxt = name[i + 1] if i + 1 < len(name) else ''
                 out.append('\\%x%s' % (ord(ch.upper() if rnd.random() < 0.5 else ch), ' ' if nxt == '' or nxt in '0123456789abcdefABCDEF' else rnd.choice(['', ' '])))
+            elif ch.isalpha() and ch.lower() not in 'abcdef' and r < 0.3:
+                # a literal escape of a letter that is no hex digit: the same letter
+                out.append('\\' + (ch.upper() if rnd.random() < 0.3 else ch))
             elif r < 0.5:
                 out.append(ch.upper())
             else:
@@ -178,8 +181,9 @@ def gen_cases(tier, seed):
         cases.append((text, NSMAP, spec))
         if ':' in text and rnd.random() < 0.4:
             cases.append((respell(rnd, text), NSMAP, spec))
-    for t, sp_ in basis[9:]:
-        for _ in range(6):
+    for t, sp_ in basis[9:] + [(':after', (0, 0, 1)), (':first-line', (0, 0, 1)), (':first-letter', (0, 0, 1)), ('::selection', (0, 0, 1)),
+                              (':not(:hover)', (0, 1, 0)), (':not(b)', (0, 0, 1))]:
+        for _ in range(10):
             cases.append(('a' + respell(rnd, t), NSMAP, (sp_[0], sp_[1], sp_[2] + 1)))
     # malformed / rejected (correspondence only)
     junk = ['a,b', 'a >', '> a', 'x|a', 'a..b', 'a[', 'a[]', 'a[=v]', ':not(', ':not()', 'a:not(b c)', '::', 'a:', 'a|', '|',
